@@ -49,6 +49,7 @@ type Profile struct {
 	PCrashUndurableTerm                                                          float64 // crash a leader/candidate whose current term is not durable yet
 	PLateType                                                                    float64 // per run: one message type is systematically delayed by election timeouts
 	RemoveBias                                                                   float64 // probability that a membership change removes a voter other than the proposer
+	PWideIDs                                                                     float64 // node ids spread over the whole uint64 range (hash-style ids) instead of 1..n
 	ShortElection                                                                bool
 	AggressiveCompaction                                                         bool
 	HeavyProposals                                                               bool
@@ -67,7 +68,7 @@ func DefaultProfile() Profile {
 		WCrash:     3, WPartition: 2, WHealF: 2, WClockStall: 0.7, WClockJump: 0.7, WSlowNode: 0.7, WStallThread: 0.7,
 		FaultRate: 0.05,
 		PDrop:     0.03, PDup: 0.03, PLate: 0.02,
-		PTargetedCrash: 0.03, PCheckpointRestart: 0.3, PUniform: 0.75, PZeroMsgSize: 0.01, PLateType: 0.3,
+		PTargetedCrash: 0.03, PCheckpointRestart: 0.3, PUniform: 0.75, PZeroMsgSize: 0.01, PLateType: 0.3, PWideIDs: 0.15,
 	}
 }
 
@@ -266,6 +267,19 @@ func DrawConfig(rng *rand.Rand, p Profile, runSeed uint64) RunConfig {
 		id++
 	}
 	rc.SplitSnapshot = chance(rng, p.PSplitSnapshot)
+	if chance(rng, p.PWideIDs) {
+		// hash-style ids: i -> i*0x2222222222222222 + 0x11 (spread over the whole range)
+		wide := func(id uint64) uint64 { return id*0x2222222222222222 + 0x11 }
+		for i := range rc.Nodes {
+			rc.Nodes[i].ID = wide(rc.Nodes[i].ID)
+		}
+		for i := range rc.Voters {
+			rc.Voters[i] = wide(rc.Voters[i])
+		}
+		for i := range rc.Learners {
+			rc.Learners[i] = wide(rc.Learners[i])
+		}
+	}
 	return rc
 }
 
